@@ -30,8 +30,10 @@ META = {
 def run(rep: Report) -> None:
     prog = rep.prog
     rel = prog.module("sym_metanet.engines.casadi").relpath
-    fi = prog.function("sym_metanet.engines.casadi", "_add_flows_to_outputs")
-    where = f"{rel}:{fi.node.lineno} _add_flows_to_outputs"
+    # (the helper that adds the flows, if the compilation still has one of that name)
+    fi = prog.module("sym_metanet.engines.casadi").functions.get("_add_flows_to_outputs") or \
+        prog.function("sym_metanet.engines.casadi", "Engine.to_function")
+    where = f"{rel}:{fi.node.lineno} {fi.qualname}"
     rep.trusted += ["python ast", "models in sma/gworld.py and sma/compile.py", "alias table"]
     n = 0
     for st in ("SX", "MX"):
